@@ -73,6 +73,12 @@ def evaluate(sid, props):
     if rc != 0:
         print('patch does not apply to /repo:', out[-400:]); return
     res = {}
+    # the committed evidence files must describe the unchanged tree: save them and put them back afterwards
+    saved = {}
+    for p in props:
+        ev = os.path.join(ROOT, 'evidence', p + '.json')
+        if os.path.exists(ev):
+            saved[ev] = open(ev).read()
     try:
         for p in props:
             t0 = time.time()
@@ -83,6 +89,8 @@ def evaluate(sid, props):
     finally:
         sh('git -C /repo checkout -- .')
         sh('git -C /repo clean -fdq')
+        for ev, txt in saved.items():
+            open(ev, 'w').write(txt)
     meta.setdefault('check_results', {}).update(res)
     json.dump(meta, open(os.path.join(d, 'meta.json'), 'w'), indent=1)
 
